@@ -346,12 +346,44 @@ pub open spec fn replace_char_spec(s: Seq<char>, from: char, to: Seq<char>) -> S
     if s.len() == 0 { s } else if s[0] == from { to + replace_char_spec(s.subrange(1, s.len() as int), from, to) }
     else { seq![s[0]] + replace_char_spec(s.subrange(1, s.len() as int), from, to) }
 }
-/// str::lines(): split at '\n', a trailing '\r' of each line removed, a final empty line not reported
-pub uninterp spec fn lines_spec(s: Seq<char>) -> Seq<Seq<char>>;
+/// index of the first '\n' of `s` (its length when there is none)
+pub open spec fn nl_pos(s: Seq<char>) -> int
+    decreases s.len()
+{
+    if s.len() == 0 { 0 } else if s[0] == '\n' { 0 } else { 1 + nl_pos(s.subrange(1, s.len() as int)) }
+}
+pub open spec fn strip_cr(l: Seq<char>) -> Seq<char> { if l.len() > 0 && l.last() == '\r' { l.drop_last() } else { l } }
+/// str::lines() as std documents and implements it (trusted model): the text is cut after every '\n'; a piece that ends
+/// with '\n' loses it and then one '\r' before it if there is one; the last piece (no '\n') is reported as it is, a
+/// bare '\r' at its end included; an empty rest after the last '\n' is not reported.  Opaque: units that only need
+/// "the parser's values are a function of lines(x)" never unfold it.
+#[verifier::opaque]
+pub open spec fn lines_spec(s: Seq<char>) -> Seq<Seq<char>>
+    decreases s.len()
+{
+    if s.len() == 0 { Seq::<Seq<char>>::empty() }
+    else {
+        let i = nl_pos(s);
+        if i < 0 || i >= s.len() { seq![s] }
+        else { seq![strip_cr(s.subrange(0, i))] + lines_spec(s.subrange(i + 1, s.len() as int)) }
+    }
+}
 /// the non-empty lines of `lines_spec`, in order
 pub uninterp spec fn nonempty_lines_spec(s: Seq<char>) -> Seq<Seq<char>>;
 /// str::split(p) for a non-empty pattern
 pub uninterp spec fn split_spec(s: Seq<char>, p: Seq<char>) -> Seq<Seq<char>>;
+/// str::split('\n') as std documents it (trusted model): the pieces between the line feeds, empty pieces included, always at
+/// least one piece.  Opaque like `lines_spec`.
+#[verifier::opaque]
+pub open spec fn split_nl(s: Seq<char>) -> Seq<Seq<char>>
+    decreases s.len()
+{
+    let i = nl_pos(s);
+    if i < 0 || i >= s.len() { seq![s] }
+    else { seq![s.subrange(0, i)] + split_nl(s.subrange(i + 1, s.len() as int)) }
+}
+pub axiom fn axiom_split_nl(s: Seq<char>)
+    ensures split_spec(s, seq!['\n']) == split_nl(s);
 /// str::split (std docs): no match gives the whole string as the only piece; a match gives at least two pieces
 pub axiom fn axiom_split_whole(s: Seq<char>, p: Seq<char>)
     requires p.len() > 0
@@ -565,6 +597,10 @@ pub uninterp spec fn int_text(i: int) -> Seq<char>;
 pub broadcast axiom fn axiom_int_text_digits(i: int)
     requires i >= 0
     ensures #[trigger] int_text(i).len() >= 1, all_digits(int_text(i));
+/// Display of a one-digit integer is that digit
+pub axiom fn axiom_int_text_one_digit(i: int)
+    requires 0 <= i <= 9
+    ensures int_text(i) == seq![((48 + i) as u8) as char];
 impl VxToString for u32 { open spec fn dview(&self) -> Seq<char> { int_text(*self as int) } #[verifier::external_body] fn vx_string(&self) -> (r: String) { self.to_string() } }
 impl VxToString for u8 { open spec fn dview(&self) -> Seq<char> { int_text(*self as int) } #[verifier::external_body] fn vx_string(&self) -> (r: String) { self.to_string() } }
 impl VxToString for u16 { open spec fn dview(&self) -> Seq<char> { int_text(*self as int) } #[verifier::external_body] fn vx_string(&self) -> (r: String) { self.to_string() } }
